@@ -48,6 +48,18 @@ func checkC07(c *Ctx) {
 				return false
 			})
 			c.Check(ok, "C07.R1", fmt.Sprintf("ingress.ServeHTTP:Envelope.Payload<-io.ReadAll#%d", i+1), p.InstrPos(st), "payload = result of io.ReadAll (fresh buffer)", "ingress payload does not come straight from io.ReadAll: "+sourcesString(ss))
+			// the read returns the whole body or fails: the reader is the request body itself or http.MaxBytesReader over it
+			// (which errors past the limit) — or io.LimitReader(body, limit+1) with the stored length tested against
+			// limit —, never a reader that stops silently at a limit: a truncated body would be acknowledged and stored
+			for _, s := range ss {
+				call, isCall := s.Val.(*ssa.Call)
+				if s.Kind != "call" || !isCallTo(s.Desc, "io.ReadAll#0") || !isCall {
+					continue
+				}
+				whole, why := readsWholeBody(serve, call)
+				c.Check(whole, "C07.R1", fmt.Sprintf("ingress.ServeHTTP:body read #%d returns the whole body or fails", i+1), p.InstrPos(call), why,
+					"the body is read through a reader that stops silently ("+why+"): a request body longer than the limit is cut, acknowledged and stored truncated")
+			}
 		}
 	}
 	nPub := 0
@@ -748,4 +760,63 @@ func argPassedTiedField(p *Program, info *types.Info, v *types.Var, decl *types.
 		return ""
 	}
 	return agreed
+}
+
+// readsWholeBody: the reader handed to io.ReadAll yields every byte of the request body or an error.
+func readsWholeBody(fn *ssa.Function, readAll *ssa.Call) (bool, string) {
+	var descs []string
+	for _, s := range sourcesOf(readAll.Call.Args[0]) {
+		descs = append(descs, s.Desc)
+		switch {
+		case s.Kind == "call" && strings.Contains(s.Desc, "http.MaxBytesReader"):
+		case strings.Contains(s.Desc, "Request.Body"):
+		case s.Kind == "call" && strings.Contains(s.Desc, "io.LimitReader"):
+			lr, ok := s.Val.(*ssa.Call)
+			if !ok || len(lr.Call.Args) != 2 {
+				return false, s.Desc
+			}
+			// limit+1, and len(result) > limit leads away from every use of the body
+			add, ok := stripConv(lr.Call.Args[1]).(*ssa.BinOp)
+			if !ok || add.Op != token.ADD {
+				return false, "io.LimitReader with a limit that is not limit+1"
+			}
+			n, isC := numConst(add.Y)
+			if !isC || n != 1 {
+				return false, "io.LimitReader with a limit that is not limit+1"
+			}
+			limit := stripConv(add.X)
+			guarded := false
+			for _, b := range fn.Blocks {
+				for i := range b.Succs {
+					a, ok := edgeAtom(Edge{b, i})
+					if !ok {
+						continue
+					}
+					if lenArgDeep(a.X) != nil && stripConv(a.Y) == limit && (a.Op == token.LEQ) {
+						// every enqueue lies behind this edge
+						all := true
+						for _, e := range allCalls(fn, isAnyEnqueue) {
+							av := EdgeSet{}
+							av.addAll([]Edge{{b, i}})
+							if _, reached := reach([]*ssa.BasicBlock{fn.Blocks[0]}, av, nil)[e.Block()]; reached {
+								all = false
+							}
+						}
+						if all {
+							guarded = true
+						}
+					}
+				}
+			}
+			if !guarded {
+				return false, "io.LimitReader(limit+1) without a len(body) <= limit test before the enqueue"
+			}
+		default:
+			return false, s.Desc
+		}
+	}
+	if len(descs) == 0 {
+		return false, "reader of unknown origin"
+	}
+	return true, "reader = " + strings.Join(descs, ", ")
 }
